@@ -196,6 +196,25 @@ static void run_huge(uint64_t idx, pv_rng* rng) {
     munmap(big, maplen);
 }
 
+
+/* ---------------------------------------------------------------- the numbers behind the documented names
+ * "returns one of its documented status codes": bindings, serialised logs and programs built with the released header know the
+ * codes, the coins and the two sizes by value.  What the header under test calls POLYSEED_ERR_LANG must still be 2. */
+static uint64_t n_values(void) { return 1; }
+static void run_values(uint64_t idx, pv_rng* rng) {
+    (void)idx; (void)rng;
+    static const struct { const char* name; long now, released; } V[] = {
+        { "POLYSEED_OK", POLYSEED_OK, 0 }, { "POLYSEED_ERR_NUM_WORDS", POLYSEED_ERR_NUM_WORDS, 1 }, { "POLYSEED_ERR_LANG", POLYSEED_ERR_LANG, 2 }, { "POLYSEED_ERR_CHECKSUM", POLYSEED_ERR_CHECKSUM, 3 },
+        { "POLYSEED_ERR_UNSUPPORTED", POLYSEED_ERR_UNSUPPORTED, 4 }, { "POLYSEED_ERR_FORMAT", POLYSEED_ERR_FORMAT, 5 }, { "POLYSEED_ERR_MEMORY", POLYSEED_ERR_MEMORY, 6 }, { "POLYSEED_ERR_MULT_LANG", POLYSEED_ERR_MULT_LANG, 7 },
+        { "POLYSEED_MONERO", POLYSEED_MONERO, 0 }, { "POLYSEED_AEON", POLYSEED_AEON, 1 }, { "POLYSEED_WOWNERO", POLYSEED_WOWNERO, 2 },
+        { "POLYSEED_NUM_WORDS", POLYSEED_NUM_WORDS, 16 }, { "POLYSEED_SIZE", POLYSEED_SIZE, 32 }, { "sizeof(polyseed_storage)", (long)sizeof(polyseed_storage), 32 } };
+    PV_COUNT("evaluations", 1);
+    bool ok = true;
+    for (unsigned i = 0; i < sizeof V / sizeof *V; ++i) if (V[i].now != V[i].released) { ok = false; pv_violation("C14/documented-codes-renumbered", "%s is %ld in the header under test and %ld in the released one", V[i].name, V[i].now, V[i].released); }
+    /* and the library returns those values: one call per status */
+    if (ok) { PV_COUNT("values.published_constants_unchanged", 1); PV_DISTINCT("nontrivial", 0x7a1e5); }
+}
+
 /* the same calls on a thread whose stack is as small as the default of a mainstream C library (musl: 128 KiB; here
  * 96 KiB to leave room for the monitors): stated assumption "an API call needs well under 96 KiB of stack" */
 #define SMALL_STACK (96 * 1024)
@@ -321,6 +340,6 @@ static void run_conc(uint64_t idx, pv_rng* rng) {
 }
 
 int main(int argc, char** argv) {
-    static const pv_section secs[] = { { "phrases", n_phrases, run_phrases }, { "flood", n_flood, run_flood }, { "huge", n_huge, run_huge }, { "smallstack", n_small, run_small }, { "passwords", n_passwords, run_passwords }, { "buffers", n_buffers, run_buffers }, { "concurrent", n_conc, run_conc } };
-    return pv_main(argc, argv, "C14", secs, 7, init, NULL);
+    static const pv_section secs[] = { { "phrases", n_phrases, run_phrases }, { "flood", n_flood, run_flood }, { "huge", n_huge, run_huge }, { "smallstack", n_small, run_small }, { "passwords", n_passwords, run_passwords }, { "buffers", n_buffers, run_buffers }, { "concurrent", n_conc, run_conc }, { "values", n_values, run_values } };
+    return pv_main(argc, argv, "C14", secs, 8, init, NULL);
 }
